@@ -158,7 +158,7 @@ def oracle(run, s, o):
 def run(run: Run):
     run.run_audit()
     specs = gen_specs(run)
-    sessions.run_sessions(run, specs, oracle, relevant=1 | 4 | 8 | 16, jobs=12)
+    sessions.run_sessions(run, specs, oracle, relevant=1 | 4 | 8 | 16 | 64, jobs=12)
     return run.finish(
         "proof",
         "per configuration and position j: promise values {0, v, v-1, v+1, 2^n-1, 2^n, u64::MAX, None} at proving time, and every single substitution "
